@@ -1,6 +1,6 @@
 (* Props/C17.v -- C17: packet framing: the reader accepts every legal framing,
    the writer emits only legal framings.  Statements only. *)
-From Rpgp Require Import Base.Octets Base.Res Frame.Framing Frame.FramingProofs Frame.BodyReader Frame.BodyReaderProofs.
+From Rpgp Require Import Base.Octets Base.Res Frame.Framing Frame.FramingProofs Frame.BodyReader Frame.BodyReaderProofs Io.Emitter Frame.PartialWriter Frame.PartialWriterProofs.
 
 (* every legal current-format framing of a body -- any length class for the
    final piece, any sequence of partial chunks 2^k (k <= 30, first k >= 9,
@@ -154,3 +154,19 @@ Example C17_ex_machine :
     (repeat x61 512 ++ [xe0] ++ [x62] ++ [x02] ++ [x63; x64] ++ [x99]) =
   (repeat x61 512 ++ [x62; x63; x64], BrClean, [x99]).
 Proof. vm_compute. reflexivity. Qed.
+
+(* the streamed literal-data writer as the staged producer it is (one serialised piece per refill; tag,
+   length and literal header in the first, a length only in the later ones; read() with any request
+   sizes): the consumer receives exactly emit_partial -- which C17_writer_legal / C17_writer_reads_back
+   show to be a legal framing that reads back *)
+Theorem C17_partial_writer_machine_is_spec :
+  forall tag k h, lenN h < 2 ^ k ->
+    forall (req : N -> N) data, pw_run tag k h req data = (emit_partial tag k h data, EClean).
+Proof. exact pw_machine_is_spec. Qed.
+Print Assumptions C17_partial_writer_machine_is_spec.
+
+(* (the code's read() does not loop over empty refills; there are none) *)
+Theorem C17_partial_writer_no_empty_refill :
+  forall tag k h s b s', pw_advance tag k h s = Some (b, s') -> b <> [].
+Proof. exact piece_never_empty. Qed.
+Print Assumptions C17_partial_writer_no_empty_refill.
